@@ -69,6 +69,15 @@ Definition final_looking (cid : N) (m : smsg) : bool :=
   | _ => false
   end.
 
+(** the final reply as the dealer means it when every ERROR erases the call
+    (fixes/C08-refused-chunk applied): any ERROR, or the RESULT that closed the call *)
+Definition final_reply (cid : N) (m : smsg) : bool :=
+  match m with
+  | SResult c _ _ false true => c =? cid
+  | SErrorCall c _ => c =? cid
+  | _ => false
+  end.
+
 Definition nothing_after (fin : N -> smsg -> bool) (l : list smsg) : Prop :=
   forall cid pre f post m,
     l = pre ++ f :: post -> fin cid f = true -> In m post -> is_reply cid m = false.
